@@ -27,7 +27,7 @@ use crate::methods::{Change, CrossAbove, CrossUnder};
 pub struct ChandeMomentumOscillator {
 	/// main period length. Default is `9`.
 	///
-	/// Range in \[`2`; [`PeriodType::MAX`](crate::core::PeriodType)\]
+	/// Range in \[`2`; [`PeriodType::MAX`](crate::core::PeriodType)\)
 	pub period: PeriodType,
 	/// Zone size of overbought and oversold. Default is `0.5`.
 	///
@@ -61,7 +61,7 @@ impl IndicatorConfig for ChandeMomentumOscillator {
 	}
 
 	fn validate(&self) -> bool {
-		self.zone >= 0. && self.zone <= 1.0 && self.period > 1
+		self.zone >= 0. && self.zone <= 1.0 && self.period > 1 && self.period < PeriodType::MAX
 	}
 
 	fn set(&mut self, name: &str, value: String) -> Result<(), Error> {
